@@ -63,7 +63,7 @@ def _eval(args) -> Tuple[str, str, List[str]]:
         try:
             prog = Program(tmp)
             ck = Checker(prog, pid, "thorough")
-            importlib.import_module(f"sv.rules.{pid}").check(ck)
+            __import__("sv.rules", fromlist=["run_rules"]).run_rules(ck, pid)
             keys = sorted({o.key for o in ck.obs if not o.ok})
             return var["id"], "ok", keys
         except AnalysisError as exc:
